@@ -163,4 +163,9 @@ Proof. exact (@EquivSession.get_single_close_once). Qed.
 Print Assumptions C13_code_get_single_close_once.
 
 
+
+Theorem C13_code_max_response_body_value : ltac:(let t := type of @EquivClient.max_response_body_value in exact t).
+Proof. exact (@EquivClient.max_response_body_value). Qed.
+Print Assumptions C13_code_max_response_body_value.
+
 Close Scope N_scope.
